@@ -7,6 +7,7 @@
 -/
 import YkProofs.Sort
 import YkProofs.SortChildren
+import YkProofs.SortNodes
 namespace Yk.C19
 open Yk
 
@@ -190,5 +191,113 @@ example : (offeredSorted (some [("cpu", 200), ("mem", 400)]) [some [("cpu", 100)
      ⟨"d", none, none, some [("cpu", 1)], none, 0, false⟩]).map (·.name) = ["b", "a"] := by decide
 example : fairMaxOf (some [("cpu", 200), ("mem", 400)]) [some [("cpu", 100)]] (some [("gpu", 2), ("cpu", 10)]) =
     some [("cpu", 10), ("mem", 400), ("gpu", 2)] := by decide
+
+/-! ### the priority key of a queue: `GetCurrentPriority()` = `priorityValueByPolicy(policy, offset, currentPriority)`
+
+`PrioQueue.value` computes the key from the policy, the offset and the priorities of the pending asks of the applications
+below (a leaf: the largest askMaxPriority; a parent: the largest value its children report) — exact integers. -/
+
+/-- The key saturates at the int32 bounds and never wraps: under the default policy it is offset + priority when that
+    sum is an int32, MaxPriority when the sum is larger, MinPriority when it is smaller. -/
+theorem priority_key_saturates (offset prio : Int) (hp : prio ≠ minPrio) :
+    (offset + prio > maxPrio → priorityValue false offset prio = maxPrio) ∧
+    (offset + prio < minPrio → priorityValue false offset prio = minPrio) ∧
+    (minPrio ≤ offset + prio → offset + prio ≤ maxPrio → priorityValue false offset prio = offset + prio) := by
+  rw [priorityValue_default offset prio hp]; exact clampPrio_cases _
+
+/-- The key is monotone in offset + priority: a queue whose offset + priority is not smaller never gets a smaller key
+    (so the sibling with the highest priority is never sorted behind the others by an overflow). `p₂ ≠ MinPriority`:
+    MinPriority means "nothing pending" and is passed through unchanged, whatever the offset. -/
+theorem priority_key_monotone (o₁ p₁ o₂ p₂ : Int) (h2 : p₂ ≠ minPrio) (h : o₁ + p₁ ≤ o₂ + p₂) :
+    priorityValue false o₁ p₁ ≤ priorityValue false o₂ p₂ :=
+  priorityValue_mono o₁ p₁ o₂ p₂ h2 h
+
+/-- Whatever the policy, the key of a queue with int32 offset is an int32. -/
+theorem priority_key_in_range (q : PrioQueue) (ho : minPrio ≤ q.offset ∧ q.offset ≤ maxPrio) :
+    minPrio ≤ q.value ∧ q.value ≤ maxPrio := by
+  unfold PrioQueue.value priorityValue
+  split
+  next h => have : q.current = minPrio := by simpa using h
+            rw [this]; decide
+  next h =>
+    split
+    · exact ho
+    · exact clampPrio_bounds _
+
+/-- currentPriority is the maximum it is documented to be: at least MinPriority, at least every item, and one of them
+    (or MinPriority when there is nothing pending below). -/
+theorem current_priority_is_max (items : List Int) :
+    minPrio ≤ maxPriority items ∧ (∀ v ∈ items, v ≤ maxPriority items) ∧ (maxPriority items = minPrio ∨ maxPriority items ∈ items) :=
+  maxPriority_foldl items minPrio
+
+-- system-critical ask priority below an offset queue: 2000000000 + 1000000000 saturates (a wrapping int32 sum gives -1294967296)
+example : (PrioQueue.mk false 1000000000 true [[2000000000, 5], [7]] []).value = 2147483647 := by decide
+example : (PrioQueue.mk false (-1000000000) false [] [⟨false, -1000000000, [[-2000000000]]⟩, ⟨true, 5, [[]]⟩]).value = -2147483648 := by decide
+example : (PrioQueue.mk false 10 false [] [⟨true, 5, [[1]]⟩, ⟨false, 0, [[3], [2]]⟩]).value = 15 := by decide
+
+/-! ### the score of a node: `ScoreNode` = `absResourceUsage` over `Node.GetResourceUsageShares()`
+
+`nodeScore binpacking weights n` computes the score from the capacity, the allocated and occupied resources of the node
+and the (integral) resource weights of the policy, as an exact fraction; `nodeOrder` is the order of the sorted node tree. -/
+
+/-- A usage share is 1 - available/total over the PRUNED available resource: a missing entry means nothing is left, the
+    type counts as fully used (share total/total = 1); a present entry v gives (total - v)/total … -/
+theorem usage_share_missing_is_fully_used (avail : Res) (k : String) (t : Int) :
+    (Res.get? avail k = none → usageShare avail k t = ⟨t, t⟩) ∧
+    (∀ v, Res.get? avail k = some v → usageShare avail k t = ⟨t - v, t⟩) :=
+  ⟨usageShare_missing avail k t, fun v h => usageShare_present avail k t v h⟩
+
+/-- … so pruning is not observable: an explicit zero entry and a pruned entry give the same share. -/
+theorem usage_share_ignores_pruning (avail : Res) (hw : Res.wf avail = true) (k : String) (t : Int) :
+    usageShare (prune avail) k t = usageShare avail k t :=
+  usageShare_prune avail hw k t
+
+/-- The usage of a node (= its fair score) is the weighted mean of its usage shares, as a rational number:
+    (Σ weight_k · (1 - available_k / total_k)) / Σ weight_k over the types of the capacity that have a weight other than
+    zero, available_k read from total - allocated - occupied with a missing entry as 0. (Positive totals and weights.) -/
+theorem node_usage_is_weighted_mean (weights : Res) (n : NodeKey) (hm : nodeModelled weights n = true)
+    (h : ((weightedTypes weights n.cap).map (·.1)).foldl (· + ·) 0 ≠ 0) :
+    (nodeUsage weights n).toRat =
+      (weightedTypes weights n.cap).foldl
+        (fun acc t => acc + (t.1 : Rat) * (1 - (((nodeAvail n).getD t.2.1 : Int) : Rat) / (t.2.2 : Rat))) 0 /
+      ((((weightedTypes weights n.cap).map (·.1)).foldl (· + ·) 0 : Int) : Rat) :=
+  nodeUsage_toRat weights n hm h
+
+/-- The order of the sorted node tree: a permutation of the nodes without inversion — no node stands behind one with a
+    larger score, and among equal scores none stands behind a larger node id: ascending score, ties by node id. -/
+theorem node_order_ascending (binpacking : Bool) (weights : Res) (nodes : List NodeKey)
+    (hm : ∀ n ∈ nodes, nodeModelled weights n = true) :
+    (nodeOrder binpacking weights nodes).Perm nodes ∧
+    (∀ (i j : Nat) (a b : NodeKey), i < j → (nodeOrder binpacking weights nodes)[i]? = some a →
+      (nodeOrder binpacking weights nodes)[j]? = some b →
+      shareLt (nodeScore binpacking weights b) (nodeScore binpacking weights a) = false ∧
+      (shareEq (nodeScore binpacking weights b) (nodeScore binpacking weights a) = true → ¬ b.id < a.id)) := by
+  obtain ⟨hi, ht⟩ := nodeBefore_order_on binpacking weights nodes hm
+  have hs := stableSort_sorted_on (nodeBefore binpacking weights) nodes hi ht
+  refine ⟨stableSort_perm _ _, ?_⟩
+  intro i j a b hij ha hb
+  have := pairwise_getElem? ((sortedBy_iff _ _).mp hs) i j a b hij ha hb
+  have hn : ¬ (nodeBefore binpacking weights b a = true) := by rw [this]; simp
+  rw [nodeBefore_iff] at hn
+  constructor
+  · cases h : shareLt (nodeScore binpacking weights b) (nodeScore binpacking weights a) with
+    | false => rfl
+    | true => exact absurd (Or.inl h) hn
+  · intro he hlt; exact hn (Or.inr ⟨he, hlt⟩)
+
+/-- Fair sorts ascending in the usage; binpacking (score 1 - usage) descending in it. -/
+theorem node_order_fair_binpacking (weights : Res) (a b : NodeKey) :
+    nodeScore false weights a = nodeUsage weights a ∧
+    shareLt (nodeScore true weights a) (nodeScore true weights b) = shareLt (nodeUsage weights b) (nodeUsage weights a) :=
+  ⟨by simp [nodeScore], binpacking_score_lt weights a b⟩
+
+-- n1 has its vcores exhausted (no available entry): usage (10/10 + 5/20)/2 = 5/8; n2 is half used on both: 1/2
+example : nodeAvail ⟨"n1", [("vcore", 10), ("memory", 20)], [("vcore", 10), ("memory", 5)], []⟩ = [("memory", 15)] := by decide
+example : (nodeOrder false [("vcore", 1), ("memory", 1)]
+    [⟨"n1", [("vcore", 10), ("memory", 20)], [("vcore", 10), ("memory", 5)], []⟩,
+     ⟨"n2", [("vcore", 10), ("memory", 20)], [("vcore", 5)], [("memory", 10)]⟩]).map (·.id) = ["n2", "n1"] := by decide
+example : (nodeOrder true [("vcore", 1), ("memory", 1)]
+    [⟨"n2", [("vcore", 10), ("memory", 20)], [("vcore", 5)], [("memory", 10)]⟩,
+     ⟨"n1", [("vcore", 10), ("memory", 20)], [("vcore", 10), ("memory", 5)], []⟩]).map (·.id) = ["n1", "n2"] := by decide
 
 end Yk.C19
